@@ -136,7 +136,8 @@ def l112(a_state, quick):
                 b_snap['obj'] = sb
             world.inject(hostile(kind, tick, world, pa), A)
             if not quick:
-                world.inject(hostile(kinds[choose(len(kinds), 'hostile_kind2')], tick + 100, world, pa), A)
+                # a second hostile datagram in the same tick (cheap kinds: the expensive ones are explored as the first)
+                world.inject(hostile(['oversized', 'truncated_genuine'][choose(2, 'hostile_kind2')], tick + 100, world, pa), A)
         if tick == 6 and a_state == 'connected':
             # the address under attack belongs to an honest established client (the attacker spoofed it): it keeps talking
             pa.absorb()
